@@ -413,3 +413,21 @@ Example C02_endstate_mv_example :
   quiescent ex_mv (fs g2) = true /\ wd g2 = [] /\ consistent ex_mv (fs g2) = true /\
   latest (sto (fs g2)) 1 5 = CVal 5 1 0 [CVal 2 1 0 [CVal 0 1 2 []]; CVal 4 1 0 [CVal 1 1 2 []]].
 Proof. vm_compute. repeat split; try reflexivity; try lia. Qed.
+
+(* MINIMAL over a whole propagation: after any prefix of a non-overlapping
+   history (failed runs allowed), as long as no further change event arrives,
+   every (algorithm, target) completes AT MOST ONE successful run -- nothing is
+   recomputed twice for one change event (nruns counts the FRun events that
+   execute a message of (x, t); Proofs/Flow3Min.v) *)
+From DV Require Import Proofs.Flow3Min.
+Theorem C02_one_run_per_event : forall c, flow_ok_mv c = true -> forall es1 es2 x t,
+  hist_ok2 c (finit2 c) (es1 ++ es2) = true -> nochg es2 = true ->
+  nruns c (frun_all2 c (finit2 c) es1) es2 x t <= 1.
+Proof. intros c OK es1 es2 x t. exact (one_run_per_event_hist c OK es1 es2 x t). Qed.
+Print Assumptions C02_one_run_per_event.
+
+Example C02_one_run_per_event_example :
+  let es1 := firstn 8 ex_fail_hist2 in let es2 := skipn 8 ex_fail_hist2 in
+  hist_ok2 ex_mv (finit2 ex_mv) (es1 ++ es2) = true /\ nochg es2 = true /\ length es2 = 7 /\
+  map (fun x => nruns ex_mv (frun_all2 ex_mv (finit2 ex_mv) es1) es2 x 1) [0; 1; 2; 3] = [1; 1; 1; 1].
+Proof. vm_compute. repeat split; reflexivity. Qed.
